@@ -30,7 +30,8 @@ def markComplete (w : World) (e : EId) : World :=
   w.setEv e { E with processed := true, signal := true }
 
 /-- is the event in some bus's history (how parents are looked up) -/
-def inAnyHist (w : World) (p : EId) : Bool := (List.range w.nb).any fun b => (w.bus b).hist.contains p
+def inAnyHist (w : World) (p : EId) : Bool :=
+  (List.range w.nb).any fun b => !(w.bus b).removed && (w.bus b).hist.contains p
 
 /-- the parent walk at the end of `process_event` -/
 def parentWalk (w : World) : Nat → EId → List EId → World
@@ -99,7 +100,9 @@ def applicable (w : World) (b : BId) (e : EId) : List HId :=
 def kindOf (w : World) (b : BId) (k : HId) : HKind :=
   match (w.bus b).handlers.find? (·.hid == k) with
   | some r => r.kind
-  | none => .async
+  | none => match (w.bus b).everRegs.find? (·.hid == k) with
+    | some r => r.kind
+    | none => .async
 
 /-- `event_cancel_pending_child_processing` -/
 def cancelPendingChildren (w : World) : Nat → EId → World
